@@ -149,6 +149,14 @@ static std::string over_range_name() {
   return b;
 }
 
+// A fixed-offset name (within 24 hours, not zero) that this process has most likely not loaded before.
+static std::string fresh_fixed_name() {
+  static std::atomic<long> n{0};
+  long v = n.fetch_add(1);
+  long off = 1 + (v * 7919) % 86399;
+  return fixed_name((v & 1) ? -off : off);
+}
+
 // ------------------------------------------------------------------ stress mode
 // relaxed-atomic race-window counters (no synchronisation added between the loader's sections)
 static std::atomic<int> g_in_miss[64];
@@ -204,6 +212,8 @@ static void stress_round(sup::Ctx& ctx, uint64_t seed, long round, int k, const 
   }
   names.push_back({"UTC", -2, true, 0});
   names.push_back({"UTC0", -2, true, 0});
+  // fixed-offset names nobody has loaded yet: all threads must end up holding the same zone for each
+  for (int j = 0; j < 4; ++j) names.push_back({fresh_fixed_name(), -2, true, 0});
   // zones shared by all threads (their hints are hammered)
   std::vector<cctz::time_zone> shared(static_cast<size_t>(nz));
   std::vector<int> shared_zi(static_cast<size_t>(nz));
@@ -393,7 +403,9 @@ static SchedResult run_schedule(sup::Ctx& ctx, const Program& P, long serial, co
   std::vector<std::string> full;
   for (auto& n : P.names) {
     if (n.second == -2) full.push_back(n.first);
-    else if (n.second == -3 || n.second == -4) {
+    else if (n.second == -5) {
+      full.push_back(fresh_fixed_name());
+    } else if (n.second == -3 || n.second == -4) {
       full.push_back(over_range_name());
       if (n.second == -3) zsrc::put(full.back(), g_z[0].bytes);
     } else {
@@ -541,7 +553,7 @@ static SchedResult run_schedule(sup::Ctx& ctx, const Program& P, long serial, co
 static std::vector<Program> programs(int kmax) {
   std::vector<Program> ps;
   // names: A, B valid; A2 alias of A's bytes; bad invalid; fixed
-  std::vector<std::pair<std::string, int>> names = {{"A", 0}, {"B", 1}, {"A2", 0}, {"bad", -1}, {"Fixed/UTC-24:00:00", -2}, {"<over>", -3}, {"<overbad>", -4}};
+  std::vector<std::pair<std::string, int>> names = {{"A", 0}, {"B", 1}, {"A2", 0}, {"bad", -1}, {"Fixed/UTC-24:00:00", -2}, {"<over>", -3}, {"<overbad>", -4}, {"<fresh-fixed>", -5}};
   ps.push_back({{{0}, {0}}, names, "2:A|A"});
   ps.push_back({{{0}, {1}}, names, "2:A|B"});
   ps.push_back({{{0, 0}, {0}}, names, "2:AA|A"});
@@ -551,6 +563,9 @@ static std::vector<Program> programs(int kmax) {
   ps.push_back({{{0, 1}, {1, 0}}, names, "2:AB|BA"});
   ps.push_back({{{5}, {5}}, names, "2:over|over"});
   ps.push_back({{{6}, {6}}, names, "2:overbad|overbad"});
+  ps.push_back({{{7}, {7}}, names, "2:fx|fx"});
+  ps.push_back({{{7}, {0}}, names, "2:fx|A"});
+  ps.push_back({{{7}, {7}}, names, "opt2:fx|fx", true});
   ps.push_back({{{0}, {0}}, names, "opt2:A|A", true});
   ps.push_back({{{0}, {1}}, names, "opt2:A|B", true});
   ps.push_back({{{5}, {5}}, names, "opt2:over|over", true});
@@ -801,6 +816,80 @@ int main(int argc, char** argv) {
       for (auto& b : bad)
         if (!b.empty()) ctx.viol("C13", "result-differs-from-single-threaded:hint-hammer", "round=" + std::to_string(c) + " k=" + std::to_string(k) + " zone=" + zb.name + " " + b);
       if (c == 0) ctx.sample("C13", "hint hammer round 0: " + std::to_string(k) + " threads x " + std::to_string(iters) + " lookup(t)+lookup(cs) on one shared " + zb.name + ", each thread in its own stretch of the table");
+    });
+  }
+  if (mode == "exit") {
+    // Use during process exit: worker threads keep using UTC, fixed-offset and loaded zones (values checked) while the
+    // main thread runs exit(): atexit handlers and the destructors of static objects. The library keeps its singletons
+    // alive for ever, so nothing may go wrong; a singleton with an exit-time destructor shows as a crash, a sanitizer
+    // report or a wrong value. The workers touch nothing of the harness that has a destructor.
+    long rounds = a.getl("rounds", 24);
+    return sup::supervise(rounds, opt, [&](long c, sup::Ctx& ctx) {
+      int k = (c % 2 == 0) ? 3 : 8;
+      ctx.set_case("class=exit op=use-during-exit round=%ld k=%d", c, k);
+      fflush(nullptr);
+      pid_t pid = fork();
+      if (pid == 0) {
+        // registered before the library is first used: runs after the destructors of anything the library creates later
+        atexit([] { std::this_thread::sleep_for(std::chrono::milliseconds(40)); });
+        const ZBytes& zb = g_z[static_cast<size_t>(c) % g_z.size()];
+        zsrc::put("V/C/exit/z", zb.bytes);
+        struct Shared {
+          cctz::time_zone z, utc, fx;
+          std::string utc_text, fx_text, z_text;
+          int64_t t;
+        };
+        Shared* sh = new Shared;  // never destroyed
+        sh->t = 1700000000 + c * 86400;
+        if (!cctz::load_time_zone("V/C/exit/z", &sh->z)) _exit(40);
+        sh->utc = cctz::utc_time_zone();
+        sh->fx = cctz::fixed_time_zone(cctz::seconds(3600));
+        const char* const kFmt = "%Y-%m-%d %H:%M:%S %z %Z";
+        sh->utc_text = cctz::format(kFmt, mk(sh->t), sh->utc);
+        sh->fx_text = cctz::format(kFmt, mk(sh->t), sh->fx);
+        sh->z_text = cctz::format(kFmt, mk(sh->t), sh->z);
+        for (int ti = 0; ti < k; ++ti) {
+          std::thread([sh, kFmt, ti]() {
+            for (long it = 0;; ++it) {
+              bool ok = true;
+              switch ((it + ti) % 6) {
+                case 0: ok = cctz::format(kFmt, mk(sh->t), sh->utc) == sh->utc_text; break;
+                case 1: ok = cctz::format(kFmt, mk(sh->t), cctz::utc_time_zone()) == sh->utc_text && cctz::utc_time_zone() == sh->utc; break;
+                case 2: {
+                  cctz::time_zone d;
+                  ok = d == sh->utc && d.lookup(mk(sh->t)).offset == 0 && d.name() == "UTC";
+                  break;
+                }
+                case 3: {
+                  tp_t tp;
+                  ok = cctz::parse("%Y-%m-%d %H:%M:%S %z", "2023-11-14 22:13:20 +0000", sh->z, &tp) && un(tp) == 1700000000;
+                  break;
+                }
+                case 4: {
+                  cctz::time_zone l;
+                  ok = cctz::load_time_zone("UTC", &l) && l == sh->utc && cctz::fixed_time_zone(cctz::seconds(0)) == sh->utc &&
+                       cctz::format(kFmt, mk(sh->t), cctz::fixed_time_zone(cctz::seconds(3600))) == sh->fx_text;
+                  break;
+                }
+                default: ok = cctz::format(kFmt, mk(sh->t), sh->z) == sh->z_text && sh->z.lookup(sh->z.lookup(mk(sh->t)).cs).pre == mk(sh->t); break;
+              }
+              if (!ok) _exit(33);
+            }
+          }).detach();
+        }
+        std::this_thread::sleep_for(std::chrono::milliseconds(15));
+        exit(0);  // atexit handlers and static destructors run while the workers go on
+      }
+      int st = 0;
+      waitpid(pid, &st, 0);
+      ctx.stat("C13.evaluations", static_cast<uint64_t>(k));
+      ctx.stat("C13.exit_rounds");
+      ctx.stat("C13.distinct_nontrivial");
+      if (!WIFEXITED(st) || WEXITSTATUS(st) != 0) {
+        std::string how = WIFSIGNALED(st) ? "signal " + std::to_string(WTERMSIG(st)) : "exit status " + std::to_string(WEXITSTATUS(st));
+        ctx.viol("C13", WIFEXITED(st) && WEXITSTATUS(st) == 33 ? "wrong-answer-during-process-exit" : "crash-during-process-exit",
+                 "round=" + std::to_string(c) + " k=" + std::to_string(k) + ": workers using UTC/fixed/loaded zones while main runs exit(): child ended with " + how);
+      }
     });
   }
   if (mode == "overtake") {
